@@ -313,13 +313,32 @@ pub mod wrapped {
         fn plain(&self, ok: bool, code: i32, v: u64) -> Result<u64, i32>;
     }
 
-    /// the same shapes on a trait that is not int_result as a whole
+    /// an error whose integer coding is lossy: it may only ever cross in full (as CResult)
+    #[repr(C)]
+    #[derive(Debug, Clone, Copy, PartialEq, Eq)]
+    pub struct Lossy {
+        pub code: i32,
+        pub extra: u32,
+    }
+    impl cglue::result::IntError for Lossy {
+        fn into_int_err(self) -> NonZeroI32 {
+            NonZeroI32::new(self.code).unwrap_or(NonZeroI32::new(7).unwrap())
+        }
+        fn from_int_err(e: NonZeroI32) -> Self {
+            Lossy { code: e.get(), extra: 0 }
+        }
+    }
+
+    /// the same shapes on a trait that is not int_result as a whole; the plain methods before and
+    /// after the attributed ones must stay plain
     #[cglue_trait]
     pub trait IntResMix {
+        fn m_plain_first(&self, ok: bool, code: i32, extra: u32) -> Result<u64, Lossy>;
         #[int_result]
         fn m_unit_user(&self, ok: bool, code: i32) -> Result<(), UserErr>;
         #[int_result]
         fn m_val_io(&self, ok: bool, code: i32, v: u64) -> Result<u64, std::io::Error>;
+        fn m_plain_last(&self, ok: bool, code: i32, extra: u32) -> Result<u64, Lossy>;
         #[int_result]
         fn m_fin_unit_user(self, ok: bool, code: i32) -> Result<(), UserErr>;
     }
@@ -351,6 +370,12 @@ pub mod wrapped {
         }
     }
     impl IntResMix for Imp {
+        fn m_plain_first(&self, ok: bool, code: i32, extra: u32) -> Result<u64, Lossy> {
+            if ok { Ok(self.0 ^ extra as u64) } else { Err(Lossy { code, extra }) }
+        }
+        fn m_plain_last(&self, ok: bool, code: i32, extra: u32) -> Result<u64, Lossy> {
+            if ok { Ok(self.0 ^ extra as u64) } else { Err(Lossy { code, extra: extra ^ 1 }) }
+        }
         fn m_unit_user(&self, ok: bool, code: i32) -> Result<(), UserErr> {
             if ok { Ok(()) } else { Err(uerr(code)) }
         }
@@ -504,6 +529,12 @@ pub mod wrapped {
     }
 
     fn mix<O: IntResMix>(o: O, d: Imp, c: &WCase) -> Result<(), Fail> {
+        // the plain (CResult) methods around the integer-coded ones keep the whole error value
+        let extra = (c.v >> 7) as u32 | 1;
+        let (w, r) = (o.m_plain_first(c.ok, c.code, extra), d.m_plain_first(c.ok, c.code, extra));
+        ensure!(w == r, "generated-wrapper", "m_plain_first({}, {}, {extra}): through the object {:?}, direct {:?}", c.ok, c.code, w, r);
+        let (w, r) = (o.m_plain_last(c.ok, c.code, extra), d.m_plain_last(c.ok, c.code, extra));
+        ensure!(w == r, "generated-wrapper", "m_plain_last({}, {}, {extra}): a plain Result declared after #[int_result] methods: through the object {:?}, direct {:?}", c.ok, c.code, w, r);
         match c.method % 3 {
             0 => {
                 let (w, r) = (o.m_unit_user(c.ok, c.code), d.m_unit_user(c.ok, c.code));
